@@ -62,11 +62,24 @@ def fk_enforced(alias):
         return cur.fetchone()[0]
 
 
-def evolutions_of(muts, sql_for=None):
+def evolutions_of(muts, sql_for=None, marker_table=None):
     evs = [{'label': 'e1', 'mutations': [sigs.real_mutation(m) for m in muts]}]
     if sql_for:
-        evs.insert(0, {'label': 'e0', 'mutations': [], 'sql_files': {sql_for: ['SELECT 1;']}})
+        # the file leaves a mark that shows it was this file that ran, on this database
+        # (a table of its own: an index on one of the app's tables would not survive a rebuild by the next evolution)
+        sql = ['CREATE TABLE "e0_marker" ("id" integer NOT NULL PRIMARY KEY);'] if marker_table else ['SELECT 1;']
+        evs.insert(0, {'label': 'e0', 'mutations': [], 'sql_files': {sql_for: sql}})
     return evs
+
+
+def has_marker(alias):
+    conn = dbrig.raw_connection(alias)
+    try:
+        cur = conn.cursor()
+        cur.execute("SELECT count(*) FROM sqlite_master WHERE type='table' AND name='e0_marker'")
+        return cur.fetchone()[0] > 0
+    finally:
+        conn.close()
 
 
 def load_correspondence(ctx):
@@ -210,7 +223,14 @@ def run(ctx):
                 # raw SQL for ONE of the databases (`<alias>_<label>.sql` next to an empty Python module)
                 sql_for = ('other' if k % 8 == 3 else 'default') if (k % 4 == 3 or (only_splits and k == len(only_splits) - 1)) else None
                 rep['sql_file_evolution_for'] = sql_for
-                evorig.set_evolutions('vapp', evolutions_of(muts, sql_for))
+                # the marked table: one that stays (not deleted or renamed by the evolution) on that database
+                final_names = [m['name'] for m in spec1['apps'][0]['models']]
+                marker = next((table_of[nm] for nm, db in zip(names, split)
+                               if db == sql_for and nm in final_names and
+                               table_of[nm] == {m['name']: m['table'] for m in spec1['apps'][0]['models']}.get(nm)), None) \
+                    if sql_for else None
+                rep['sql_file_marker_table'] = marker
+                evorig.set_evolutions('vapp', evolutions_of(muts, sql_for, marker))
                 for alias, other in (('default', 'other'), ('other', 'default')):
                     before_other = evorig.snapshot(other)
                     before_mine = evorig.snapshot(alias)
@@ -224,6 +244,10 @@ def run(ctx):
                     if after_other != before_other:
                         ctx.fail(None, 'evolving %s modified database %s: %s'
                                  % (alias, other, [k for k in before_other if before_other[k] != after_other[k]]), rep)
+                    if sql_for and marker and r[0] == 'ok':
+                        if has_marker(alias) != (alias == sql_for):
+                            ctx.fail(None, 'the evolution shipped as %s_e0.sql %s on %s'
+                                     % (sql_for, 'did not run' if alias == sql_for else 'ran', alias), rep)
                     if r[0] != 'ok':
                         msg = str(r[1])
                         if 'constraint failed' in msg:
@@ -351,7 +375,7 @@ def replay(ctx, obj):
         for alias in ('default', 'other'):
             evorig.run_evolver(alias)
         evorig.install_models(spec1)
-        evorig.set_evolutions('vapp', evolutions_of(muts, r.get('sql_file_evolution_for')))
+        evorig.set_evolutions('vapp', evolutions_of(muts, r.get('sql_file_evolution_for'), r.get('sql_file_marker_table')))
         for alias, other in (('default', 'other'), ('other', 'default')):
             before_other = evorig.snapshot(other)
             out = evorig.run_evolver(alias)
